@@ -48,7 +48,10 @@ let op_of s = match String.split_on_char ':' s with
 let out_str = function Done -> "ok" | IndexError -> "IndexError" | ValueErr -> "ValueError" | Answer l -> "ans=" ^ String.concat "," (List.map string_of_pstr l)
 
 let bools_str l = if l = [] then "-" else String.concat "" (List.map (fun b -> if b then "1" else "0") l)
-let obj_str o = Printf.sprintf "%s,%s,%s,%d,%d" (string_of_pstr (text o)) (bools_str o.oeven) (bools_str o.oodd) (int_of_z (get_index o)) (int_of_z (get_diagonal_index o))
+(* arbitrary-size integers are printed in binary (prefix b, sign first) so that no OCaml int overflows *)
+let rec pos_bin = function XH -> "1" | XO p -> pos_bin p ^ "0" | XI p -> pos_bin p ^ "1"
+let z_bin = function Z0 -> "b0" | Zpos p -> "b" ^ pos_bin p | Zneg p -> "-b" ^ pos_bin p
+let obj_str o = Printf.sprintf "%s,%s,%s,%s,%s" (string_of_pstr (text o)) (bools_str o.oeven) (bools_str o.oodd) (z_bin (get_index o)) (z_bin (get_diagonal_index o))
 
 let ascii_of_int n = Ascii (n land 1 = 1, n land 2 = 2, n land 4 = 4, n land 8 = 8, n land 16 = 16, n land 32 = 32, n land 64 = 64, n land 128 = 128)
 let asciis_of_hex h = List.init (String.length h / 2) (fun i -> ascii_of_int (int_of_string ("0x" ^ String.sub h (2 * i) 2)))
